@@ -464,3 +464,61 @@ def reset_recounts_from_states(ctx, r, rid):
 @rule(P, "C09.8", "T11", "resubmission reset: both counters are recounted from the job states it leaves behind (finite abstraction selected x state)", min_obligations=6)
 def c09_8(ctx, r):
     reset_recounts_from_states(ctx, r, "C09.8")
+
+
+@rule(P, "C09.9", "T7", "a handle's config and job status are read in one hold of the cluster lock (a reader never mixes two generations)", min_obligations=2)
+def c09_9(ctx, r):
+    de = ctx.fn("Cluster.deserialize", "C09.9")
+    inner = ctx.fn("Cluster._deserialize", "C09.9")
+    ws = [s for s in ctx.cg.sites_in(de) if s.via_wrapper and inner.qual in s.wrapped]
+    acq = [s for s in ctx.cg.sites_in(de) if "ACQUIRE_CLUSTER" in ctx.site_may(s)]
+    r.check(len(ws) == 1 and len(acq) == 1, "Cluster.deserialize takes the lock once, around _deserialize", key_of(de, "snapshot read in several lock holds"), de.loc(),
+            f"Cluster.deserialize acquires the cluster lock at {len(acq)} call sites ({[ctx.src(s.node.func) for s in acq]}): the config and the job status are read in separate holds, so a status reader "
+            "can see counters of one generation with job states of the next (a submitter round may run in between)", "Whenever the status can be read (the cluster lock is free), completed <= submitted <= total ...")
+    for s in ws:
+        kw = {k.arg: ctx.src(k.value) for k in s.node.keywords}
+        r.check(kw.get("deserialize_jobs") == "deserialize_jobs", "the deserialize_jobs request is forwarded into the locked function", key_of(de, "deserialize_jobs not forwarded"), s.loc,
+                f"the wrapper call passes deserialize_jobs={kw.get('deserialize_jobs')}: the job status is not read inside the same hold")
+    # inside the locked function the job status is read by the unlocked helper
+    ds = [s for s in ctx.cg.sites_in(inner) if "ACQUIRE_CLUSTER" in ctx.site_may(s)]
+    r.check(not ds, "_deserialize does not re-acquire the lock", key_of(inner, "nested acquire"), inner.loc(), f"_deserialize calls lock-taking functions: {[ctx.src(s.node.func) for s in ds]}")
+
+
+@rule(P, "C09.10", "T3", "a Cluster method that changes job states / blockers / status fields in memory persists both files before it returns", min_obligations=3)
+def c09_10(ctx, r):
+    cl = ctx.cls("Cluster", "C09.10")
+    n = 0
+    for m in cl.methods.values():
+        if m.name in ("__init__", "create", "_deserialize", "_deserialize_jobs", "deserialize", "_serialize", "_serialize_jobs"):
+            continue
+        if "serialize" in m.params:
+            continue   # the caller decides (and serialises itself): Cluster.create / deserialize-with-promotion paths
+        js_stores, cfg_stores = [], []
+        for st in iter_own(m.node):
+            tgts = st.targets if isinstance(st, ast.Assign) else [st.target] if isinstance(st, ast.AugAssign) else []
+            for t in tgts:
+                if isinstance(t, ast.Attribute):
+                    rt = ctx.ty.expr_type(m, t.value)
+                    if type_is(ctx, rt, "Job") or type_is(ctx, rt, "JobStatus"):
+                        js_stores.append(st)
+                    elif type_is(ctx, rt, "ClusterConfig") and t.attr != "version":
+                        cfg_stores.append(st)
+        if js_stores:
+            n += 1
+            r.check(ctx.must(m, "SERIALIZE_JOBS"), f"{m.short}: job status changes are serialised on every normal path", key_of(m, "job status changed but not serialised"), m.loc(js_stores[0]),
+                    f"{m.short} changes job states / blockers / status fields (`{ctx.src(js_stores[0])[:50]}`) but does not reach _serialize_jobs() on every normal path: job_status.json keeps the old states while "
+                    "cluster_config.json is updated - after a fault before the next status update the two files disagree for good (e.g. every job still 'done' on a submission re-opened for resubmission)",
+                    "completed equals the number of jobs marked done ... / never leaves the submission with results erased and no way forward")
+        if cfg_stores:
+            n += 1
+            r.check(ctx.must(m, "SERIALIZE_CONFIG"), f"{m.short}: config changes are serialised on every normal path", key_of(m, "config changed but not serialised"), m.loc(cfg_stores[0]),
+                    f"{m.short} changes ClusterConfig fields (`{ctx.src(cfg_stores[0])[:50]}`) but does not reach _serialize() on every normal path")
+    if n < 4:
+        raise AnalysisError("C09.10", f"only {n} state-changing Cluster methods recognised")
+
+
+@rule(P, "C09.11", "T1", "resubmission keeps the row of every job that stays done (every done job has a recorded result)", min_obligations=4)
+def c09_11(ctx, r):
+    from .c13 import c13_4
+
+    c13_4(ctx, r)
